@@ -319,6 +319,9 @@ pub fn copy_tree(src: &Path, dst: &Path) {
             let md = fs::symlink_metadata(&p).expect("stat");
             if md.is_dir() {
                 copy_tree(&p, &d);
+            } else if md.file_type().is_symlink() {
+                let t = fs::read_link(&p).expect("readlink");
+                let _ = std::os::unix::fs::symlink(t, &d);
             } else {
                 fs::copy(&p, &d).expect("copy");
             }
@@ -366,6 +369,9 @@ pub struct WsSpec {
     /// extra empty directories
     #[serde(default)]
     pub dirs: Vec<String>,
+    /// extra symbolic links (path, target)
+    #[serde(default)]
+    pub symlinks: Vec<(String, String)>,
 }
 
 impl WsSpec {
@@ -374,6 +380,13 @@ impl WsSpec {
         self.tree.write_to(root);
         for d in &self.dirs {
             fs::create_dir_all(root.join(d)).expect("mkdir extra");
+        }
+        for (p, t) in &self.symlinks {
+            let full = root.join(p);
+            if let Some(par) = full.parent() {
+                fs::create_dir_all(par).expect("mkdir for symlink");
+            }
+            let _ = std::os::unix::fs::symlink(t, &full);
         }
         fs::create_dir_all(root.join("patches")).expect("mkdir patches");
         for (n, t) in &self.patches {
